@@ -426,3 +426,16 @@ CHECKS['C17'].update(text=CHECKS['C17']['text'] + ' Termination clauses: LP1 no 
                      'scans by a text computed from that buffer and scans again (${} expansion, @INCLUDE processing) is bounded by '
                      'construction: every cycle through the rewrite updates an integer budget monotonically and a test of the budget '
                      'has an edge from which the rewrite is unreachable.')
+
+
+# ---- wave-10 extensions (round for C04 C05 C09 C10) ---------------------------------------------------------------------------------
+CHECKS['C04'].update(text=CHECKS['C04']['text'] + ' T10: a node is stamped with the traversal id only on paths that deliver it - no failing return '
+                     '(the allocation-failure exit of the copying mode) is reachable from the stamp.')
+CHECKS['C05'].update(text=CHECKS['C05']['text'] + ' T8 (from the tree table) also over qhashtbl.c, which accepts empty values: a NULL result of '
+                     'qmemdup() leads to the ENOMEM exit only together with a test of the source size.')
+CHECKS['C09'].update(text=CHECKS['C09']['text'] + ' E7: in the chain-walking flatteners (toarray / tostring, behind qgrow too) every copy out of an '
+                     'element takes the element\'s recorded size or that size - 1 (all reaching definitions of the length, as polynomials) '
+                     'and the output cursor advances by the copied length - a length taken from the content (strlen/strnlen) is refused. '
+                     'E8: a node-pointer field of the container that a non-re-linking function assigns (a remembered lookup position) must '
+                     'be reset or re-established after every write to a chain link or end pointer on every path (three-state forward '
+                     'analysis: valid / stale / invalid; no instance while the record has no such field).')
